@@ -196,6 +196,10 @@ class ExprMixin(Core):
                     pieces.append(self.uf("int_str", z3.IntSort(), z3.StringSort())(self.U.acc("i", val.t)))
                 elif isinstance(val, T) and val.kind == "V" and self.known_con(val.t) == "VStr":
                     pieces.append(self.U.acc("s", val.t))
+                elif isinstance(val, T) and val.kind == "V" and s.mode == "code" and not self.feasible(s, z3.Not(self.U.is_("VInt", val.t))):
+                    pieces.append(self.uf("int_str", z3.IntSort(), z3.StringSort())(self.U.acc("i", val.t)))
+                elif isinstance(val, T) and val.kind == "V" and s.mode == "code" and not self.feasible(s, z3.Not(self.U.is_("VStr", val.t))):
+                    pieces.append(self.U.acc("s", val.t))
                 else:
                     exact = False
             if not exact or not pieces:
@@ -855,15 +859,38 @@ class ExprMixin(Core):
             n = self.it_len(it)
             j = z3.Int(fresh_name("cj"))
             s_el = s.fork(j >= 0, j < n)
-            s_el = self.bind_target(gen.target, self.it_elem(it, j), s_el)
+            elem = self.it_elem(it, j)
+            s_el = self.bind_target(gen.target, elem, s_el)
+            if (s.mode == "code" and self.cur_contract is not None
+                    and getattr(self, "comp_ord", {}).get(id(node)) in getattr(self.cur_contract, "comps", {})):
+                s_el = self.learn(s_el, self.val_terms(elem))  # quantified facts about the elements apply to this one
             res = self.ev(node.elt, s_el)
             oks = [(v, s2) for tag, v, s2 in res if tag == OK]
             raises = [(e, s2) for tag, e, s2 in res if tag == RAISE]
-            if len(oks) != 1:
-                raise Unsupported("comprehension element forks")
-            v, s2 = oks[0]
-            extra = [c for c in s2.pc[len(s_el.pc):]]
-            vt = self.box(v)
+            if not oks:
+                raise Unsupported("comprehension element never evaluates")
+            hint = None
+            ordinal = getattr(self, "comp_ord", {}).get(id(node))
+            cc = self.cur_contract
+            if s.mode == "code" and cc is not None and ordinal in getattr(cc, "comps", {}) and self.fn_key_inner is None:
+                # the contract names the element: G(target); proved for an arbitrary position on every element path
+                hs = self.bind_target(gen.target, self.it_elem(it, j), State(dict(s.env), s_el.pc, None, "spec", None, dict(s.ghost)))
+                hint = self.box(self.ev1(cc.parsed(cc.comps[ordinal]), hs))
+                for v_i, s_i in oks:
+                    self.oblige(s_i, f"comp#{ordinal}", self.box(v_i) == hint, cc.comps[ordinal])
+            if len(oks) == 1:
+                v, s2 = oks[0]
+                extra = [c for c in s2.pc[len(s_el.pc):]]
+                vt = self.box(v)
+            else:
+                # the element expression forks (conditional expression, dispatch): the paths partition the positions
+                guards = [z3.And(*s_i.pc[len(s_el.pc):]) if len(s_i.pc) > len(s_el.pc) else z3.BoolVal(True) for _, s_i in oks]
+                vt = self.box(oks[-1][0])
+                for (v_i, _), g_i in reversed(list(zip(oks[:-1], guards[:-1]))):
+                    vt = z3.If(g_i, self.box(v_i), vt)
+                extra = [z3.Or(*guards)]
+            if hint is not None:
+                vt = hint
             jj = z3.Int("cq!")
             # facts the element evaluation established for an arbitrary position hold for every position; they
             # were derived under this path's condition, so they extend THIS path's condition (not the global axioms)
@@ -890,6 +917,8 @@ class ExprMixin(Core):
         (z3 has no usable sequence extensionality)"""
         if it.kind != "seq" or not z3.is_app(vt):
             return None
+        if vt.decl().kind() == z3.Z3_OP_DT_CONSTRUCTOR and vt.decl().name() in ("VStr", "VInt", "VBool", "VFloat") and z3.is_app(vt.arg(0)):
+            vt = vt.arg(0)  # a boxed scalar result G(x): the list elements of map_<G> are boxed the same way
         name = vt.decl().name()
         if not name.startswith("spec_"):
             return None
